@@ -207,7 +207,10 @@ func bitsPrograms(r *rand.Rand, nrnd int) []*tprog {
 	var out []*tprog
 	seed := func() string { return fmt.Sprintf("%d", r.Uint64()|1) }
 	mk := func(name string) *tprog {
-		t := newTprog(name, "math/bits")
+		t := newTprog(name)
+		if name != "bits-uint" {
+			t.imports["math/bits"] = true
+		}
 		t.files["zz_bitslib.go"] = bitsLib
 		t.files["impl_js.go"] = bitsImplJS
 		t.files["impl_native.go"] = bitsImplNative
@@ -240,7 +243,7 @@ func bitsPrograms(r *rand.Rand, nrnd int) []*tprog {
 	// ---- 32 bit, 64 bit and uint
 	type width struct {
 		w, typ, rnd, pfx, hex string
-		grid                 []uint64
+		grid                  []uint64
 	}
 	g32 := uintGrid(32, r, 10)
 	g64 := uintGrid(64, r, 10)
